@@ -128,7 +128,7 @@ Print Assumptions C17_elapsed_bounds.
 Theorem C17_give_up_complete : forall s n ms, expired s n ms -> give_up s n ms = true.
 Proof. exact give_up_complete. Qed.
 Print Assumptions C17_give_up_complete.
-(* ... "never before": full statement Spec.PendingSpec.C17_timeout_not_early_full_statement, refuted twice below (F17.4);
+(* ... "never before": full statement Spec.PendingSpec.C17_timeout_not_early_full_statement, refuted below for a monotonic clock (F17.4a);
    what holds: if the seconds did not go down, all but the last millisecond of the timeout has passed, and with no
    borrow from the seconds the decision is exact *)
 Theorem C17_give_up_sound_partial : forall s n ms,
@@ -142,9 +142,13 @@ Print Assumptions C17_give_up_exact.
 Theorem C17_timeout_not_early_refuted_rounding : ~ C17_timeout_not_early_full_statement.
 Proof. exact timeout_not_early_refuted_rounding. Qed.
 Print Assumptions C17_timeout_not_early_refuted_rounding.
-Theorem C17_timeout_not_early_refuted_backwards : ~ C17_timeout_not_early_full_statement.
-Proof. exact timeout_not_early_refuted_backwards. Qed.
-Print Assumptions C17_timeout_not_early_refuted_backwards.
+(* the "clock set backward" branch (code only: a monotonic clock never reaches it, second theorem) *)
+Theorem C17_clock_backward_branch : forall s n ms, (tv_sec n < tv_sec s)%Z -> give_up s n ms = true.
+Proof. exact clock_backward_branch. Qed.
+Print Assumptions C17_clock_backward_branch.
+Theorem C17_monotonic_never_backward : forall s n, normal s -> normal n -> (us_of s <= us_of n)%Z -> (tv_sec n <? tv_sec s)%Z = false.
+Proof. exact monotonic_never_backward. Qed.
+Print Assumptions C17_monotonic_never_backward.
 
 (* a pass of the recheck loop whose reading says "not expired" never makes up a timeout error: what it completes the
    call with was in the incoming queue, or is the Disconnected error of a dead transport (any reachable state) *)
